@@ -48,7 +48,11 @@ ASSUMPTIONS = [
     "centres closer than ccd_tolerance AND the engine returned |centre1-centre2| (0 up to rounding) in both orders / no contact; touching "
     "= true distance of the shapes that the failing path works on (un-inflated for mj_geomDistance, inflated by the margin for contacts) "
     "within 2*ccd_tolerance of zero AND the comparison is a depth/distance or a contact-vs-mj_geomDistance comparison (never finiteness, "
-    "unit normals, dist <= margin or argument-order symmetry). Everything else is a VIOLATION",
+    "unit normals, dist <= margin); argument-order asymmetry of mj_geomDistance in a touching pose is covered only after the counterfactual "
+    "'ccd_tolerance set to a quarter of the certified positive distance -> right and equal in both orders' has succeeded; cylinder cap "
+    "= penetrating pose outside the touching band with a cylinder axis parallel (5e-13) to a flat-face normal of the other geom AND the "
+    "counterfactual 'second geom tilted by 1e-6 rad -> mj_geomDistance within tol of its certified depth in both orders' has succeeded. "
+    "Everything else is a VIOLATION",
     "contact positions are C13's subject; geom poses are read back from the engine",
 ]
 
@@ -135,11 +139,33 @@ LISTED = {
                                       "contact-dist-differs-from-reference", "contact-normal-does-not-realise-reported-distance",
                                       "contact-normal-reversed"),
 }
+LISTED["ccd-touching-within-tolerance"] += ("geomDistance-not-symmetric",)      # only with the tolerance counterfactual, see check_pose
+# findings/C15-epa-cylinder-cap-exactly-parallel.md: EPA leaves unconverged (depth too shallow) when a cylinder's axis is EXACTLY
+# parallel to a facet normal of the other geom (the cylinder support returns the cap centre for exactly axial directions)
+LISTED["ccd-cylinder-cap-exactly-parallel-to-flat-face"] = ("geomDistance-differs-from-reference", "geomDistance-differs-from-contact-dist")
 # which engine path must be in the touching band for each comparison: gd = un-inflated shapes (mj_geomDistance), c = shapes inflated by
 # the margin (mjc_Convex contacts)
 _TOUCH_PATH = {"geomDistance-differs-from-reference": ("gd",), "geomDistance-differs-from-contact-dist": ("gd", "c"),
                "contact-dist-differs-from-reference": ("c",), "contact-normal-does-not-realise-reported-distance": ("c",),
                "contact-normal-reversed": ("c",)}
+
+
+def flat_normals(X):
+    if X.kind == cx.CYLINDER:
+        return X.axis[None, :]
+    if X.kind in (cx.BOX, cx.MESH):
+        return X.facets_edges()[0]
+    return np.zeros((0, 3))
+
+
+def cylinder_axis_exactly_along_flat_normal(A, B):
+    """the cylinder whose axis is parallel (to rounding) to a facet normal / cylinder axis of the other geom, else None"""
+    for X, Y in ((A, B), (B, A)):
+        if X.kind == cx.CYLINDER:
+            N = flat_normals(Y)
+            if len(N) and float(np.abs(N @ X.axis).max()) > 1 - 5e-13:
+                return X
+    return None
 
 
 def check_pose(P, S, obs, distmax, witness, final=True):
@@ -248,9 +274,65 @@ def check_pose(P, S, obs, distmax, witness, final=True):
             touch.add("c")
     if mg > 0 and lo >= mg - band and hi <= mg + band:
         touch.add("c")
+    cache = {}
     if touch:
         P.count("poses_ccd-touching-within-tolerance")
-        mechs.append(("ccd-touching-within-tolerance", lambda chk: any(p_ in touch for p_ in _TOUCH_PATH.get(chk, ()))))
+
+        def tolerance_counterfactual():
+            # argument-order asymmetry is covered ONLY if the engine's own branch condition is shown to cause it: with ccd_tolerance
+            # set below the (certified, positive) true distance mjc_ccd no longer 'assumes touching', and mj_geomDistance must then
+            # be right and equal in both orders
+            if "tolcf" not in cache:
+                ok = False
+                if "gd" in touch and ref["separated"] and hi > 1e-13:
+                    # hi = |x-y| of two actual points of the shapes; if the true distance were much smaller than hi/4 the engine
+                    # would still take the touching branch and the counterfactual would merely fail (conservative)
+                    old_tol = float(S.m.opt["ccd_tolerance"])
+                    S.m.opt["ccd_tolerance"] = hi / 4
+                    try:
+                        f1, f2 = np.zeros(6), np.zeros(6)
+                        g1 = S.L.call("mj_geomDistance", S.m, S.d, S.gid[0], S.gid[1], float(distmax), f1, ret="f64")
+                        g2 = S.L.call("mj_geomDistance", S.m, S.d, S.gid[1], S.gid[0], float(distmax), f2, ret="f64")
+                        ok = all(min(lo, distmax) - tol <= g <= min(hi, distmax) + tol for g in (g1, g2)) and abs(g1 - g2) <= tol
+                    finally:
+                        S.m.opt["ccd_tolerance"] = old_tol
+                cache["tolcf"] = ok
+                P.count("touching_asymmetry_tolerance_counterfactual_" + ("confirmed" if ok else "failed"))
+            return cache["tolcf"]
+        mechs.append(("ccd-touching-within-tolerance", lambda chk: tolerance_counterfactual() if chk == "geomDistance-not-symmetric"
+                      else any(p_ in touch for p_ in _TOUCH_PATH.get(chk, ()))))
+    cyl = cylinder_axis_exactly_along_flat_normal(A, B) if (not touch and not ref["separated"]) else None
+    if cyl is not None:
+        P.count("poses_ccd-cylinder-cap-exactly-parallel-to-flat-face")
+
+        def tilt_counterfactual():
+            # the defect needs EXACTLY axial support directions: tilting geom 1 (always on a free body) by 1e-6 rad about an axis
+            # perpendicular to the cylinder axis changes the true depth by < 1e-6*size, far below tol - confirmed when
+            # mj_geomDistance of the tilted pose is within tol of ITS certified depth in both orders
+            if "tilt" not in cache:
+                ok = False
+                qsave = np.array(S.d["qpos"]).copy()
+                try:
+                    X = S.shape(1)
+                    e = np.eye(3)[int(np.argmin(np.abs(cyl.axis)))]
+                    perp = np.cross(cyl.axis, e)
+                    perp /= np.linalg.norm(perp)
+                    a = 1e-6
+                    S.set_geom_pose(1, X.pos, base.qmul(np.array([math.cos(a / 2), *(math.sin(a / 2) * perp)]), base.mat2quat(X.R)))
+                    S.d.forward()
+                    A2, B2 = S.shape(kA), S.shape(kB)
+                    cb2 = cx.penetration_certified(A2, B2, eps=0.1 * tol)
+                    f1, f2 = np.zeros(6), np.zeros(6)
+                    g1 = S.L.call("mj_geomDistance", S.m, S.d, S.gid[0], S.gid[1], 10.0 * scale, f1, ret="f64")
+                    g2 = S.L.call("mj_geomDistance", S.m, S.d, S.gid[1], S.gid[0], 10.0 * scale, f2, ret="f64")
+                    ok = cb2["certified"] and all(-cb2["upper"] - tol <= g <= -cb2["lower"] + tol for g in (g1, g2))
+                finally:
+                    S.d["qpos"][:] = qsave
+                    S.d.forward()
+                cache["tilt"] = bool(ok)
+                P.count("cylinder_cap_tilt_counterfactual_" + ("confirmed" if ok else "failed"))
+            return cache["tilt"]
+        mechs.append(("ccd-cylinder-cap-exactly-parallel-to-flat-face", lambda chk: tilt_counterfactual()))
 
     # ---- mj_geomDistance: swap symmetry
     e = abs(gdA - gdB)
